@@ -154,10 +154,13 @@ PLAN["C17"] = {
     "level_text": "For every listed method and size n = 0..8 of both types, Kani proves that with ANY out-of-range index / assignment / mismatched operand / wrong block length (symbolic over all of usize) no execution returns from the call, and that the only failing checks are always-on assert!/assert_eq!/slice checks (a failing debug_assert or overflow check, which exist only in debug builds, fails the obligation). For valid arguments, Verus proves each kernel free of overflow and assertion failure against the same contract in the debug variant (debug_assert lines are obligations) and the release variant (lines deleted), and the Kani triples of C01/C03/C08/C11 report no overflow.",
     "level_note": "Trusted: Kani/CBMC, Verus/Z3/vstd, rustc. Reduction (paper, checked syntactically each run): the only profile-dependent constructs in the crate are debug_assert* and arithmetic-overflow checks. Kani follows a failing debug_assert no further, so a later always-on check that would also stop a release build is not credited.",
     "verus_units": ["kernels", "logic"],
-    "kani_units": ["spec_ops.rs", "c17_panics.rs"],
-    "kani_filters": {"quick": ["c17q_"], "thorough": ["c17t_"]},
+    "kani_units": ["spec_ops.rs", "c17_panics.rs", "c03_transforms.rs", "c11_constructors.rs", "c08_kernels.rs"],
+    # the valid-argument half: the fully unwound triples of C03/C11/C08 on valid arguments must show no failed check at all
+    # (Kani checks arithmetic overflow and every assert on each path), here for the fixed-size type and the kernels
+    "kani_filters": {"quick": ["c17q_", "c03q_s_", "c11q_s_", "c08q_k_next"], "thorough": ["c17t_", "c03q_d_", "c11q_d_", "c08t_k_next"]},
     "panic_re": r"c17[qt]_p_",
-    "kani_scope": {r"_s_": "complete(LutN, fixed N: all tables, invalid argument over all of usize)", r"_d_": "complete(Lut, fixed n: all tables, invalid argument over all of usize)"},
+    "kani_scope": {r"c17._p_s_": "complete(LutN, fixed N: all tables, invalid argument over all of usize)", r"c17._p_d_": "complete(Lut, fixed n: all tables, invalid argument over all of usize)",
+                   r"c03|c11|c08": "complete(valid arguments, fixed size: no overflow / assertion failure on any path)"},
     "harness_timeout": {"quick": 600, "thorough": 3600},
     "profile_scan": True,
     "functions": ["Lut::/StaticLut::{value, get_bit, set_bit, unset_bit, set_value, nth_var, flip, flip_inplace, swap, swap_inplace, swap_adjacent, swap_adjacent_inplace, cofactors, from_cofactors, top_decomposition, is_pos_unate, is_neg_unate, from_blocks}",
